@@ -368,9 +368,10 @@ class JSONGrammar(BaseGrammar):
 
     def _create_validator(self) -> None:
         """Create the schema validator."""
-        self.schema.pop("id", None)
-        self.schema.pop("required", None)
-        self.__validator = compile_schema(self.schema)
+        schema = dict(self.schema)
+        schema.pop("id", None)
+        schema.pop("required", None)
+        self.__validator = compile_schema(schema)
 
     def set_descriptions(self, descriptions: Mapping[str, str]) -> None:
         """Set the properties descriptions.
